@@ -101,6 +101,10 @@ pub struct TapLog {
     /// number of times a relay write could not complete at once
     pub partial_writes: u32,
     pub bytes_to_client: u64,
+    /// octets of payload PDUs (prefixes, router keys, ASPAs) the server sent
+    pub payload_octets: u64,
+    /// the longest payload PDU the server sent
+    pub max_payload_pdu: u32,
 }
 
 fn be16(b: &[u8]) -> u16 {
@@ -111,7 +115,9 @@ fn be32(b: &[u8]) -> u32 {
     u32::from_be_bytes([b[0], b[1], b[2], b[3]])
 }
 
-const MAX_PDU: usize = 1 << 20;
+/// Longer than anything the harness' source hands out (router keys of up to
+/// 1.1 MB in the large histories).
+const MAX_PDU: usize = 1 << 24;
 
 /// Splits complete PDUs off the front of `buf`.
 fn take_pdu(buf: &mut Vec<u8>, desync: &mut bool) -> Option<Vec<u8>> {
@@ -132,12 +138,46 @@ fn take_pdu(buf: &mut Vec<u8>, desync: &mut bool) -> Option<Vec<u8>> {
 
 //------------ middlebox -----------------------------------------------------
 
+/// Octets waiting to be relayed. Taking octets off the front moves a cursor
+/// (a response of a megabyte behind a pipe of a few octets would otherwise be
+/// shifted once per write).
+#[derive(Default)]
+struct Queue {
+    buf: Vec<u8>,
+    pos: usize,
+}
+
+impl Queue {
+    fn extend_from_slice(&mut self, data: &[u8]) {
+        self.buf.extend_from_slice(data);
+    }
+
+    fn is_empty(&self) -> bool {
+        self.pos == self.buf.len()
+    }
+
+    fn pending(&self) -> &[u8] {
+        &self.buf[self.pos..]
+    }
+
+    fn advance(&mut self, n: usize) {
+        self.pos += n;
+        if self.pos == self.buf.len() {
+            self.buf.clear();
+            self.pos = 0;
+        } else if self.pos >= 1 << 16 && self.pos * 2 >= self.buf.len() {
+            self.buf.drain(..self.pos);
+            self.pos = 0;
+        }
+    }
+}
+
 pub struct Middlebox {
     c: DuplexStream,
     s: DuplexStream,
     cap: u8,
-    to_c: Vec<u8>,
-    to_s: Vec<u8>,
+    to_c: Queue,
+    to_s: Queue,
     c_in: Vec<u8>,
     s_in: Vec<u8>,
     c_desync: bool,
@@ -147,7 +187,7 @@ pub struct Middlebox {
 
 impl Middlebox {
     pub fn new(c: DuplexStream, s: DuplexStream, cap: u8, tap: Arc<Mutex<TapLog>>) -> Self {
-        Middlebox { c, s, cap, to_c: Vec::new(), to_s: Vec::new(), c_in: Vec::new(), s_in: Vec::new(), c_desync: false, s_desync: false, tap }
+        Middlebox { c, s, cap, to_c: Queue::default(), to_s: Queue::default(), c_in: Vec::new(), s_in: Vec::new(), c_desync: false, s_desync: false, tap }
     }
 
     fn on_client_bytes(&mut self, data: &[u8]) {
@@ -201,7 +241,11 @@ impl Middlebox {
             match pdu[1] {
                 0 => tap.notifies += 1,
                 3 => tap.cache_responses += 1,
-                4 | 6 | 9 | 11 => tap.payload_pdus += 1,
+                4 | 6 | 9 | 11 => {
+                    tap.payload_pdus += 1;
+                    tap.payload_octets += pdu.len() as u64;
+                    tap.max_payload_pdu = tap.max_payload_pdu.max(pdu.len() as u32);
+                }
                 7 => {
                     let timing = if pdu.len() >= 24 { Some((be32(&pdu[12..16]), be32(&pdu[16..20]), be32(&pdu[20..24]))) } else { None };
                     if pdu.len() >= 12 {
@@ -259,13 +303,13 @@ impl Future for Middlebox {
             }
             // box -> server
             if !me.to_s.is_empty() {
-                match Pin::new(&mut me.s).poll_write(cx, &me.to_s) {
+                match Pin::new(&mut me.s).poll_write(cx, me.to_s.pending()) {
                     Poll::Ready(Ok(0)) | Poll::Ready(Err(_)) => return Poll::Ready(()),
                     Poll::Ready(Ok(n)) => {
-                        if n < me.to_s.len() {
+                        if n < me.to_s.pending().len() {
                             me.tap.lock().unwrap().partial_writes += 1;
                         }
-                        me.to_s.drain(..n);
+                        me.to_s.advance(n);
                         progress = true;
                     }
                     Poll::Pending => {}
@@ -273,13 +317,13 @@ impl Future for Middlebox {
             }
             // box -> client
             if !me.to_c.is_empty() {
-                match Pin::new(&mut me.c).poll_write(cx, &me.to_c) {
+                match Pin::new(&mut me.c).poll_write(cx, me.to_c.pending()) {
                     Poll::Ready(Ok(0)) | Poll::Ready(Err(_)) => return Poll::Ready(()),
                     Poll::Ready(Ok(n)) => {
-                        if n < me.to_c.len() {
+                        if n < me.to_c.pending().len() {
                             me.tap.lock().unwrap().partial_writes += 1;
                         }
-                        me.to_c.drain(..n);
+                        me.to_c.advance(n);
                         progress = true;
                     }
                     Poll::Pending => {}
